@@ -276,6 +276,18 @@ def run(ctx):
                     res.count("string_form_documents")
                     res.seen("string-form-pairs", f"{nk}/{nv} in {kw}{' at the root' if hi == 4 else ''}")
                     judge(ctx, eng, sfront, text, "string-forms", h(text))
+        # keywords the schemas do not know (the grammar takes any word as a keyword), among them the names the bookkeeping itself uses
+        # inside __position__ / __comments__ (line, column, values): they are data like any other keyword
+        if ctx.shard == 1 % ctx.nshards:
+            odd_keys = ["LINE", "COLUMN", "line", "Column", "VALUES_X", "POSITION", "COMMENTS", "COMMENT", "TYPE_", "FOO", "END_"]
+            for okey in odd_keys:
+                for host in ("MAP", "CLASS", "LABEL"):
+                    for val in ('5', '"text"'):
+                        text = f'{host}\n  {okey} {val} # trailing\n  STATUS ON\n  {okey.lower()}2 7\nEND\n'
+                        res.count("unknown_keyword_documents")
+                        judge(ctx, eng, sfront, text, "unknown-keywords", h(text))
+                        text = f'MAP\n  # above\n  {host if host != "MAP" else "LAYER"}\n    NAME "n"\n    {okey} {val}\n  END\nEND\n'
+                        judge(ctx, eng, sfront, text, "unknown-keywords", h(text))
         # values that START like a delimited token (/regex/, \\regex\\, %var%, `string`) but are not closed on their line, with the same
         # delimiter again further down (in a comment, a string, an expression): every load mode has to lex them the same way
         if ctx.shard == 0:
